@@ -70,6 +70,9 @@ func (obj *Array) calcAndSet(list List) {
 		for i := 0; i < len(obj.dims); i++ {
 			obj.dims[i] = len(list)
 			if i < len(obj.dims)-1 {
+				if len(list) == 0 {
+					break // the remaining dimensions are 0
+				}
 				if list, ok = list[0].(List); !ok {
 					ErrorPanic(NewScope(), 0, "Invalid data for a %d dimension array. %s", len(obj.dims), list)
 				}
